@@ -271,6 +271,31 @@ func C05(c *Ctx) {
 		}
 		r.Floor("R05.3", "per-element updates in addToMultiTxNotifyMap", nLoops, 1)
 	}
+
+	// R05.4: the group leaves the timeout list only after its global state changed
+	r.Rule("R05.4", "a group leaves the timeout list only when it ends: every removeFromTimeoutList of the transaction manager is preceded on every path by a change of the group's global state (a store to GlobalState or setFSM(&txInfo.GlobalState, ..)); a group whose state is still BEGIN stays listed, otherwise it never times out and its finished children are never rolled back.")
+	nRem := 0
+	isGlobalChange := func(in ssa.Instruction) bool {
+		if storesToField("TransactionInfo", "GlobalState")(in) {
+			return true
+		}
+		call, ok := in.(ssa.CallInstruction)
+		if !ok || !strings.HasSuffix(core.CalleeName(call), ".setFSM") {
+			return false
+		}
+		_, fld, _, okf := core.FieldOf(core.Arg(call, 0))
+		return okf && fld == "GlobalState"
+	}
+	for _, fn := range m.funcs {
+		if fn.Name() == "removeFromTimeoutList" {
+			continue
+		}
+		nRem += c.mustPrecede("R05.4", shortFn(fn), fn, isGlobalChange, func(in ssa.Instruction) bool {
+			call, ok := in.(ssa.CallInstruction)
+			return ok && strings.HasSuffix(core.CalleeName(call), "TransactionManager).removeFromTimeoutList")
+		}, "change of the group's global state", "removal from the timeout list")
+	}
+	r.Floor("R05.4", "timeout-list removals in the transaction manager", nRem, 2)
 }
 
 func shortFnName(spec string) string {
